@@ -1,5 +1,5 @@
 SOURCE_COMMITS = []  # no guarded hook commits: instrumentation is harness-side only
-FIX_COMMITS = ["72224cf", "5e98ecd", "2300819", "45660fa", "ac83a8e", "f5d3225", "01d6c3c", "044fec0"]
+FIX_COMMITS = ["72224cf", "5e98ecd", "2300819", "45660fa", "ac83a8e", "f5d3225", "01d6c3c", "044fec0", "b901102"]
 NOTES = "Runtime monitoring of the real repid code; see DESIGN.md. Verdicts are 'held on the executions produced', never proofs."
 NOT_APPLICABLE = {}
 CHECKS = {
@@ -30,6 +30,13 @@ CHECKS = {
         "text": "Single delayed messages over a grid of due offsets (past .. +30 d), 12 positions of now inside the second, 6 consumer phases and three ways of creating the delay, plus queues with several non-monotone due times and category-visibility probes, on the three brokers: a delivery more than 1 ms before T is a violation, so is no delivery within 10 s of virtual time after max(T, consumer start), so is visibility through a NORMAL/DEAD consumer before T.",
         "note": "Virtual time; fakes; RabbitMQ head-of-queue TTL expiry (documented server rule R2) makes short delays behind long ones late: recorded as a known finding, keyed by the multi-message non-monotone pattern.",
         "ref": "DESIGN.md 5/C05",
+    },
+    "C06": {
+        "level": "exploration",
+        "technique": "runtime monitoring: cadence inequalities over the parameters of every reschedule recorded from real Worker runs on a virtual clock",
+        "text": "Recurring jobs run 8-25 consecutive iterations through a real Worker with five duration/lateness profiles (constant, growing, shrinking, saw-tooth, longer than the period), four outcome chains (ok, retry, exhausted, mixed), periods 1 s .. 1 h (process suspended between runs by clock steps), deferred_until none/ahead/past, three brokers. For every completed iteration: exactly one reschedule, counter 0, timestamp == now, now < next <= now + period, next >= scheduled time of the run that just finished + period; one instance of the job afterwards.",
+        "note": "Virtual time; fakes; cron unreachable (croniter absent); the scheduled time of the first run is read from the real function at enqueue time and checked against deferred_until / the (now, now+p] window.",
+        "ref": "DESIGN.md 5/C06",
     },
     "C12": {
         "level": "exploration",
